@@ -414,7 +414,8 @@ def r5_stray_mutators(ctx, rep, R='C18.R5'):
 
 
 IO_PREFIXES = ('os.', 'glob.', 'tempfile.', 'shutil.', 'pstats.', 'socket.', 'subprocess.')
-IO_NAMES = ('open', 'print')
+# warnings.warn raises when warnings are turned into errors (-W error, warnings='error'); logging calls run handlers
+IO_NAMES = ('open', 'print', 'warnings.warn', 'warnings.warn_explicit')
 IO_METHODS = ('dump_stats', 'write', 'close', 'flush', 'writelines', 'read', 'unlink', 'mkdir',
               'write_results')
 
